@@ -16,8 +16,9 @@ def run(out: common.Outcome):
     rnd = random.Random(out.seed + 19)
     model = Model()
     corr = Corr(out, model, rnd)
-    out.coverage["source_pin"] = common.source_hash(PINS)
+    common.pins_changed(out, PINS)
     n = 250 if out.tier == "quick" else 6000
+    n = int(n * out.boost)
     # ---- make_reltoroot
     jobs = []
     for _ in range(n):
